@@ -558,6 +558,33 @@ def clock_rules(repo, rep, m):
                          'old day with the new day\'s seconds of day (25:365:00000 at new year)' % (q, len(reads)), expected='one reading', actual='%d readings' % len(reads))
     if n == 0:
         rep.undecided('R-CLOCK', 'R-CLOCK::geodepy/gnss.py::none', 'geodepy/gnss.py:1', 'no clock read found: the creation-time stamp is not updated?')
+    # a default value is evaluated ONCE, when the module is imported: a stamp taken there is the time of the import, not of the call
+    CLOCK = ('.now', '.today', '.utcnow', 'time.time')
+    clocky = set()
+    grew = True
+    while grew:
+        grew = False
+        for g in m.all_functions():
+            if g.qualname in clocky:
+                continue
+            for c in calls_in(g.node):
+                t = rs.callee(g, c)
+                if stmt_text(c.func).endswith(CLOCK) or (isinstance(t, Func) and t.module is m and t.qualname in clocky):
+                    clocky.add(g.qualname)
+                    grew = True
+                    break
+    for g in m.all_functions():
+        for prm in g.params:
+            d = prm.default
+            if d is None:
+                continue
+            for c in [x for x in ast.walk(d) if isinstance(x, ast.Call)]:
+                t = rs.callee(g, c)
+                if stmt_text(c.func).endswith(CLOCK) or (isinstance(t, Func) and t.qualname in clocky):
+                    rep.violated('R-CLOCK', 'R-CLOCK::geodepy/gnss.py::%s::default(%s)' % (g.qualname, prm.name), where(g, d),
+                                 'the default of `%s` is `%s`, which reads the clock - and a default is evaluated once, when geodepy.gnss is imported: every later call of %s without the '
+                                 'argument stamps the IMPORT time (a session that runs past midnight or new year writes yesterday\'s / last year\'s creation time)'
+                                 % (prm.name, stmt_text(d)[:60], g.qualname), expected='%s=None and the reading taken inside the call' % prm.name, actual=stmt_text(d)[:80])
 
 
 # ------------------------------------------------------------------------------------------------ readers
@@ -766,6 +793,86 @@ def branch_of(f, node):
     return '%s/%s' % (vel, low)
 
 
+def empty_index_rule(repo, rep, m):
+    """numpy.array of an EMPTY Python list is a float64 array, and a float array is not an index: `keep[np.array(skip)] = False` raises IndexError
+    exactly when nothing is to be removed.  A list that a loop fills under a condition may stay empty (the removal set "none" is in the
+    property's quantifier): used as an index array it needs an integer dtype (or a guard on its length)."""
+    for f in m.all_functions():
+        if f.qualname not in EDITORS:
+            continue
+        lists = set()
+        for n in ast.walk(f.node):
+            if isinstance(n, ast.Assign) and len(n.targets) == 1 and isinstance(n.targets[0], ast.Name) \
+                    and ((isinstance(n.value, ast.List) and not n.value.elts) or (isinstance(n.value, ast.Call) and getattr(n.value.func, 'id', '') == 'list' and not n.value.args)):
+                lists.add(n.targets[0].id)
+        hits = 0
+        for n in ast.walk(f.node):
+            if not isinstance(n, ast.Subscript):
+                continue
+            for c in ast.walk(n.slice):
+                if isinstance(c, ast.Call) and stmt_text(c.func).split('.')[-1] in ('array', 'asarray') and c.args and isinstance(c.args[0], ast.Name) and c.args[0].id in lists \
+                        and not any(k.arg == 'dtype' for k in c.keywords) and len(c.args) < 2:
+                    hits += 1
+                    rep.violated('R-INDEX', 'R-INDEX::geodepy/gnss.py::%s::index-array(%s)' % (f.qualname, c.args[0].id), where(f, n),
+                                 '`%s` indexes with `%s`: `%s` starts as an empty list and is filled under a condition - when nothing is appended (an empty removal set) numpy makes a '
+                                 'float64 array of it and the indexing raises IndexError; the output file is left truncated' % (stmt_text(n)[:60], stmt_text(c), c.args[0].id),
+                                 expected='np.array(%s, dtype=int)' % c.args[0].id, actual=stmt_text(c))
+        if not hits:
+            rep.holds('R-INDEX', 'R-INDEX::geodepy/gnss.py::%s::index-array' % f.qualname, where(f, f.node), 'no index array is built from a list that may be empty', work=False)
+
+
+def matrix_placement_rule(repo, rep, m):
+    """a SOLUTION/MATRIX_ESTIMATE record is ` PARA1 PARA2 v0 [v1 [v2]]`: the values belong to row PARA1, columns PARA2, PARA2+1, PARA2+2.  Records of
+    zeros may be omitted in a well-formed file (remove_matrixzeros_sinex writes such files): a reader that stores the values of a row one
+    after the other and never looks at PARA2 puts everything after a gap into the wrong column (and runs out of values: IndexError).
+    One instance per function that takes values out of split matrix records."""
+    n = 0
+    for f in m.all_functions():
+        src_names = set(x.id for x in ast.walk(f.node) if isinstance(x, ast.Name)) | set(x.value for x in ast.walk(f.node) if isinstance(x, ast.Constant) and isinstance(x.value, str))
+        if not any('matrix_estimate' in t.lower() for t in src_names if isinstance(t, str)):
+            continue
+        for a in ast.walk(f.node):
+            if not (isinstance(a, ast.Assign) and len(a.targets) == 1 and isinstance(a.targets[0], ast.Name) and isinstance(a.value, ast.Call)):
+                continue
+            fn = a.value.func
+            is_split = isinstance(fn, ast.Attribute) and fn.attr == 'split'
+            if not is_split:
+                continue
+            var = a.targets[0].id
+            offset = 0
+            if isinstance(fn.value, ast.Name) and fn.value.id == 're':
+                # re.split on a line with a leading blank yields an empty first field unless the empties are filtered away
+                filtered = any(isinstance(b, ast.Assign) and isinstance(b.targets[0], ast.Name) and b.targets[0].id == var and isinstance(b.value, ast.Call)
+                               and 'filter' in stmt_text(b.value) for b in ast.walk(f.node))
+                offset = 0 if filtered else 1
+            consts = set()
+            takes_values = False
+            for u in ast.walk(f.node):
+                if isinstance(u, ast.Subscript) and isinstance(u.value, ast.Name) and u.value.id == var and isinstance(u.ctx, ast.Load):
+                    if isinstance(u.slice, ast.Constant) and isinstance(u.slice.value, int):
+                        consts.add(u.slice.value - offset)
+                        if u.slice.value - offset >= 2:
+                            takes_values = True
+                    elif isinstance(u.slice, ast.Name):
+                        takes_values = True
+            # a membership / all-zero test over col[2:] takes no value OUT of the record
+            if not takes_values:
+                continue
+            n += 1
+            key = 'R-INDEX::geodepy/gnss.py::%s::matrix-record-placement' % f.qualname
+            if 0 in consts and 1 in consts:
+                rep.holds('R-INDEX', key, where(f, a), 'the values of a matrix record are placed by both of its index fields (PARA1, PARA2)')
+            else:
+                rep.violated('R-INDEX', key, where(f, a), '%s takes the values of a matrix record (`%s`) and reads %s of its two index fields: the values of a row are stored by POSITION, '
+                             'so a file in which records of zeros are left out (what remove_matrixzeros_sinex writes) shifts every value after a gap into the wrong column - '
+                             'remove_stns_sinex on such a file raises IndexError and leaves output.snx truncated'
+                             % (f.qualname, stmt_text(a)[:50], 'only PARA1' if 0 in consts else ('only PARA2' if 1 in consts else 'neither')),
+                             expected='row from field 0 and first column from field 1', actual='fields read by constant index: %s' % sorted(consts))
+    rep.floor('R-INDEX', 1, 'readers of matrix records')
+    if n < 2:
+        raise AnalysisError('matrix-record readers: %d recognised (remove_stns_sinex, remove_velocity_sinex, read_sinex_matrix expected)' % n)
+
+
 def container_rules(repo, rep, m):
     """three small dataflow rules of the SINEX code.
     1. the list of removed parameter numbers (`skip`) is a SET of numbers: its members are the index fields of the estimates of the removed
@@ -961,8 +1068,12 @@ def run(repo, rep):
     prefix_rules(repo, rep, m)
     reader_rules(repo, rep, m)
     container_rules(repo, rep, m)
+    empty_index_rule(repo, rep, m)
+    matrix_placement_rule(repo, rep, m)
     verbatim_rules(repo, rep, m)
     station_key_rules(repo, rep, m)
+    from . import common
+    common.iterator_reuse_rule(repo, rep, ['geodepy.gnss'])
     from . import c18x
     c18x.run(rep, m)
     c18x.run2(rep, m)
@@ -978,6 +1089,9 @@ def controls(repo):
                                                 'if all(float(val)==0 for val in col[3:]):'), 'zero-line'))
     out.append(('removed-numbers-as-a-range', text_variant(repo, 'geodepy/gnss.py', "        del solution_estimate\n\n        out.write(\"*-----", "        del solution_estimate\n        skip = range(skip[0], skip[-1] + 1) if skip else skip\n\n        out.write(\"*-----"), 'skip-set'))
     out.append(('comment-lines-stripped', text_variant(repo, 'geodepy/gnss.py', '                comments.append(line.rstrip())', '                comments.append(line.strip())'), 'verbatim-lines'))
+    out.append(('matrix-values-by-position', text_variant(repo, 'geodepy/gnss.py', "                    first = int(cols[1]) - 1\n                else:\n                    first = int(cols[1]) - int(row)\n", "                    first = len(vcv.get(row, []))\n                else:\n                    first = len(vcv.get(row, []))\n"), 'matrix-record-placement'))
+    out.append(('stamp-at-definition-time', text_variant(repo, 'geodepy/gnss.py', "def remove_matrixzeros_sinex(sinex):", "def remove_matrixzeros_sinex(sinex, stamp=set_creation_time()):"), 'default(stamp)'))
+    out.append(('index-array-from-empty-list', text_variant(repo, 'geodepy/gnss.py', "        sub_vcv = {}\n        sub_row = 0\n", "        sub_vcv = {}\n        sub_row = 0\n        np.ones(len(vcv) + 1)[np.array(skip)] = 0\n"), 'index-array(skip)'))
     out.append(('splice-width', text_variant(repo, 'geodepy/gnss.py', "        header = header[:15] + creation_time + header[27:]\n        old_num_params = header[60:65]",
                                              "        header = header[:15] + creation_time + header[28:]\n        old_num_params = header[60:65]"), 'header[15:28]'))
     return out
